@@ -290,7 +290,7 @@ def _root_local(f, tr, operand):
     return l
 
 
-def _const_operand(f, operand):
+def _const_operand(f, operand, _depth=0):
     c = op_const(operand)
     if c is not None:
         return c
@@ -299,7 +299,26 @@ def _const_operand(f, operand):
         return None
     ds = [d for d in f.defs().get(l, []) if not f.is_cleanup(d[0])]
     if len(ds) == 1 and ds[0][1] is not None and ds[0][2]["rv"]["r"] in ("use", "cast"):
-        return _const_operand(f, ds[0][2]["rv"]["a"][0])
+        src = ds[0][2]["rv"]["a"][0]
+        pl = op_place(src)
+        if pl is not None and pl.get("p") and not (len(pl["p"]) == 1 and isinstance(pl["p"][0], dict) and pl["p"][0].get("f") == 0):
+            return None
+        if pl is not None and pl.get("p") and _depth < 6:
+            # `.0` of a checked arithmetic result
+            return _const_operand(f, {"k": "cp", "pl": {"l": pl["l"]}}, _depth + 1)
+        return _const_operand(f, src, _depth + 1) if _depth < 12 else None
+    if len(ds) == 1 and ds[0][1] is not None and ds[0][2]["rv"]["r"] == "bin" and _depth < 12:
+        # `LIMIT as usize - 1`: arithmetic on constants
+        rv = ds[0][2]["rv"]
+        a, b = _const_operand(f, rv["a"][0], _depth + 1), _const_operand(f, rv["a"][1], _depth + 1)
+        if isinstance(a, int) and isinstance(b, int):
+            op = rv["op"].replace("WithOverflow", "").replace("Unchecked", "")
+            if op == "Sub":
+                return a - b
+            if op == "Add":
+                return a + b
+            if op == "Mul":
+                return a * b
     return None
 
 
